@@ -49,6 +49,9 @@ Extremes == { [Xfer(0, b, 1000, FwINT("U"), <<>>) EXCEPT !.amtc = c] : b \in {"u
                    Xfer(0, "uusdc", 1000, FwINT("U"), <<FeeAct(<<Bps(10000, "F1"), [k |-> "fix", v |-> 5, vc |-> "BIG256", to |-> "F1"]>>)>>),
                    Xfer(0, "uusdc", 1000, FwINT("U"), <<FeeAct(<<[k |-> "fix", v |-> 5, vc |-> "BIG256", to |-> "F1"], [k |-> "fix", v |-> 5, vc |-> "BIG256", to |-> "F2"]>>)>>),
                    Xfer(0, "uusdc", 1000, FwINT("U"), <<FeeAct(<<[k |-> "fix", v |-> 5, vc |-> "OVER256", to |-> "F1"]>>)>>) }
+            \* numbers with white space around them (a validator that trims and a consumer that does not)
+            \cup { Xfer(0, "uusdc", 1000, FwINT("U"), <<FeeAct(<<[k |-> "fix", v |-> 5, vc |-> c, to |-> "F1"]>>)>>) : c \in {"SPACE", "TRAILSP", "NEWLINE", "TAB"} }
+            \cup { [Xfer(0, "uusdc", 1000, FwINT("U"), <<>>) EXCEPT !.amtc = "SPACE"] }
 
 \* data before / after the root object: the memo is not a single JSON object
 TrailGrid == { [t EXCEPT !.mk = "MUT", !.aid = "root", !.op = m] : t \in Templates, m \in {"trailgarbage", "trailobj", "trailbrace", "leadgarbage", "tworoots"} }
